@@ -5,6 +5,10 @@ mod rfcref;
 mod tables;
 
 mod c10;
+mod c13;
+mod c14;
+mod c15;
+mod c19;
 
 use common::*;
 use std::time::Instant;
@@ -25,6 +29,7 @@ fn main() {
         _ => Tier::Quick,
     };
     let mut replay: Option<String> = None;
+    let mut replay_case: Option<String> = None;
     let mut verif_dir = std::path::PathBuf::from("/verif");
     let mut i = 1;
     while i < args.len() {
@@ -40,6 +45,10 @@ fn main() {
             "--replay" => {
                 i += 1;
                 replay = Some(args.get(i).cloned().unwrap_or_else(|| usage()));
+            }
+            "--replay-case" => {
+                i += 1;
+                replay_case = Some(args.get(i).cloned().unwrap_or_else(|| usage()));
             }
             "--verif-dir" => {
                 i += 1;
@@ -65,8 +74,20 @@ fn main() {
 
     let (run, rep): (fn(&Ctx) -> i32, ReplayFn) = match id.as_str() {
         "C10" => (c10::run, c10::replay),
+        "C13" => (c13::run, c13::replay),
+        "C14" => (c14::run, c14::replay),
+        "C15" => (c15::run, c15::replay),
+        "C19" => (c19::run, c19::replay),
         _ => usage(),
     };
+    if let Some(c) = replay_case {
+        let case: serde_json::Value = serde_json::from_str(&c).unwrap_or_else(|e| machinery_failure(&format!("bad --replay-case: {}", e)));
+        let r = guarded(|| rep(&case)).unwrap_or_else(|p| Err(format!("panic in replay: {}", p)));
+        match r {
+            Ok(()) => { println!("REPLAY property={} outcome=pass", id); std::process::exit(0) }
+            Err(m) => { println!("REPLAY property={} outcome=violation msg={}", id, m); std::process::exit(1) }
+        }
+    }
     let code = match replay {
         Some(path) => run_replay(&path, rep),
         None => run(&ctx),
